@@ -4,6 +4,7 @@
 V="$(cd "$(dirname "$0")/.." && pwd)"; REPO="${VERIF_REPO:-/repo}"; export VERIF_REPO="$REPO"; cd $V; miss=0; T=$(mktemp -d /tmp/urisim_mut.XXXXXX)
 for d in seeded/*/; do
   id=$(basename $d); p=${id%%-*}
+  cw=$(sed -n 's/.*"check_with": *"\(C[0-9]*\)".*/\1/p' $d/meta.json 2>/dev/null | head -1); [ -n "$cw" ] && p=$cw   # reported by a sibling check (see meta.json "note")
   [ -f $d/patch.diff ] || continue
   git -C $REPO apply $V/${d}patch.diff || { echo "$id: patch does not apply"; miss=1; continue; }
   out=$(./check $p quick --evidence $T/ev --replays $T/rp 2>&1); rc=$?
